@@ -191,6 +191,13 @@ class StoredComparison:
     """The comparison operator ('==', '!=', '===', '!==')."""
 
 
+def _storable_text(text: str | None) -> str | None:
+    """Make source-derived text storable: SQLite rejects lone surrogates (e.g. "\\ud800")."""
+    if text is None:
+        return None
+    return text.encode("utf-8", "backslashreplace").decode("utf-8")
+
+
 def _row_to_comparison(row: tuple) -> StoredComparison:
     """Convert a database row tuple to StoredComparison.
 
@@ -351,7 +358,7 @@ class StringlyTypedStorage:  # thailint: ignore[srp]
                     pattern.string_set_hash,
                     json.dumps(pattern.string_values),
                     pattern.pattern_type,
-                    pattern.details,
+                    _storable_text(pattern.details),
                 ),
             )
 
@@ -438,7 +445,7 @@ class StringlyTypedStorage:  # thailint: ignore[srp]
                     call.column,
                     call.function_name,
                     call.param_index,
-                    call.string_value,
+                    _storable_text(call.string_value),
                 ),
             )
 
@@ -538,7 +545,7 @@ class StringlyTypedStorage:  # thailint: ignore[srp]
                     comparison.line_number,
                     comparison.column,
                     comparison.variable_name,
-                    comparison.compared_value,
+                    _storable_text(comparison.compared_value),
                     comparison.operator,
                 ),
             )
